@@ -33,6 +33,13 @@ def parseQ : Sx → Option (String × Json)
   | .list [.atom "q", _, .atom cls, raw] => (toJson raw).map fun j => (cls, j)
   | _ => none
 
+/-- `(sleep n)` elements let real time pass in the harness; the model is untimed
+    (exact within the 12 h lifetime: `C19_lifetime_sweep_is_noop_within_12h`) -/
+def dropSleeps (qs : List Sx) : List Sx :=
+  qs.filter fun q => match q with
+    | .list [.atom "sleep", _] => false
+    | _ => true
+
 def roundRobin (n : Nat) : List Nat := (List.range 13).flatMap fun _ => List.range n
 
 /-- n identical requests, one after the other (any order of identical requests is this order) -/
@@ -90,7 +97,7 @@ def manyRun (n : Nat) : Sx :=
 def certLine (line : String) : String :=
   match parse line with
   | some (.list (.atom "cert" :: qs)) =>
-    match qs.mapM parseQ with
+    match (dropSleeps qs).mapM parseQ with
     | some qs =>
       let run := qs.foldl (fun run q => certStepLine run q.2) {}
       render (.list (.atom "obs" :: run.out))
@@ -142,12 +149,12 @@ def certPred (prop : String) (caseLine obsLine : String) : String :=
   match parse caseLine, parse obsLine with
   | some _, some (.list (.atom "panic" :: _)) => "fail panic"
   | some (.list (.atom "cert" :: qs)), some (.list (.atom "obs" :: rs)) =>
-    match qs.mapM parseQ, rs.mapM parseR with
+    match (dropSleeps qs).mapM parseQ, rs.mapM parseR with
     | some qs, some rs =>
       if qs.length != rs.length then "fail observation-length" else
       let hist : List CertQ := (qs.zip rs).map fun (q, r) =>
         { cls := q.1, raw := q.2, closed := r.1, replies := r.2 }
-      match P_C19_history cvtF64 [] hist with
+      match P_C19_history cvtF64 [] [] hist with
       | none => "ok"
       | some r => "fail " ++ r
     | _, _ => "fail unparsable-case-or-observation"
